@@ -353,6 +353,32 @@ Proof.
     rewrite H1, H2. intros H. discriminate H.
 Qed.
 
+(* ---- the hypothesis [constants_ok] is needed (the real code has the same defect) ---- *)
+Definition det (x : var) (e : expr) : gassign :=
+  {| ga_var := x; ga_cond := CTrue; ga_default := x; ga_rhs := RDet e |}.
+Definition qc (z : Z) : expr := EConst (mkq z 1).
+Definition wit_a : flatprog :=
+  {| fp_init := [det "k" (qc 1); det "y" (EVar "k"); det "k" (qc 2)];
+     fp_body := [det "y" (EAdd (EVar "y") (EVar "k"))] |}.
+Definition wit_b : flatprog :=
+  {| fp_init := [det "k" (qc 1);
+                 {| ga_var := "k"; ga_cond := CTrue; ga_default := "k"; ga_rhs := RDraw (DBern (EConst (mkq 1 2))) |};
+                 det "x" (qc 0)];
+     fp_body := [det "x" (EAdd (EVar "x") (EVar "k"))] |}.
+
+
+Definition obs (x : var) : state -> Qc := fun s => s x.
+Theorem constants_without_ok_refuted :
+  exists (fp : flatprog) (n : nat) (s0 : state) (f : state -> Qc),
+    ignores (folded fp) f /\ E (frun no_law (constants fp) n s0) f <> E (frun no_law fp n s0) f.
+Proof.
+  exists wit_a, 0%nat, st0, (obs "y"). split.
+  - intros s s' H. apply H. vm_compute. reflexivity.
+  - assert (H1 : E (frun no_law (constants wit_a) 0 st0) (obs "y") = mkq 2 1) by (vm_compute; reflexivity).
+    assert (H2 : E (frun no_law wit_a 0 st0) (obs "y") = mkq 1 1) by (vm_compute; reflexivity).
+    rewrite H1, H2. intros H. discriminate H.
+Qed.
+
 (* ---- structural comparison with Polar's output (correspondence check) ---- *)
 Fixpoint cond_eq_poly (c d : cond) : bool :=
   match c, d with
